@@ -218,6 +218,22 @@ fn main() {
       let race_issues = if race > 0 { h::trie::race_probe(race) } else { vec![] };
       h::util::write_json(&args[3], &json!({"runs": runs, "with_issues": outs.len(), "race_issues": race_issues, "outcomes": outs.into_iter().take(100).collect::<Vec<_>>()}));
     }
+    "lb" => {
+      // vh lb <behaviours.jsonl> <out.json> [--perturb]
+      let beh: Vec<h::lb::Behaviour> = h::util::read_jsonl(&args[2]);
+      let perturb = args.iter().any(|a| a == "--perturb");
+      let mut outs = Vec::new();
+      let mut routes = 0usize;
+      for (i, b) in beh.iter().enumerate() {
+        let o = h::lb::run(i, b, perturb);
+        routes += o.routes;
+        if !o.issues.is_empty() {
+          outs.push(serde_json::to_value(&o).unwrap());
+        }
+      }
+      let windows = h::lb::wait_windows();
+      h::util::write_json(&args[3], &json!({"runs": beh.len(), "routes": routes, "with_issues": outs.len(), "windows": windows, "outcomes": outs.into_iter().take(100).collect::<Vec<_>>()}));
+    }
     other => h::util::tool_error(&format!("unknown subcommand {}", other)),
   }
 }
